@@ -1,5 +1,5 @@
 """Per-property configuration of bin/check: theorem files, harness commands, correspondence stages."""
-from vlib import stage_pure, stage_gw, stage_nats
+from vlib import stage_pure, stage_gw, stage_nats, stage_core
 
 PROPS = {
     "C05": {
@@ -82,7 +82,8 @@ PROPS = {
         "coq": ["Props/C01.v"],
         "level": "proof",
         "harness": ["gwrun", "purediff"],
-        "stages": [("pure", stage_pure, {"suites": ["ressub"], "n_quick": 4000, "n_thorough": 60000}),
+        "stages": [("core", stage_core, {"n_quick": 1500, "n_thorough": 20000}),
+                   ("pure", stage_pure, {"suites": ["ressub"], "n_quick": 4000, "n_thorough": 60000}),
                    ("gw", stage_gw, {"profiles": [("basic", 150, 1000), ("refs", 350, 3000), ("churn", 350, 3000), ("access", 200, 1500), ("scacc", 250, 2000), ("reset", 250, 1500), ("accrefs", 200, 1500), ("query", 150, 1000), ("legacy", 250, 2000), ("legacyacc", 150, 1000), ("scgraph", 250, 2000), ("resetf", 250, 2000), ("scthr1", 150, 1500), ("wild", 0, 1500)]})],
         "rule": "random histories of the real gateway under the harness scheduler (every connection task, cache task and hooked goroutine "
                 "granted one at a time): 2 clients, 3-4 resources with reference graphs (sharing, cycles, self references), "
@@ -114,7 +115,8 @@ PROPS = {
         "coq": ["Props/C03.v"],
         "level": "proof",
         "harness": ["gwrun"],
-        "stages": [("gw", stage_gw, {"profiles": [("basic", 200, 2000), ("refs", 300, 3000), ("churn", 300, 3000), ("access", 250, 2000), ("scacc", 250, 2000), ("reset", 300, 2000), ("accrefs", 200, 1500), ("legacy", 200, 1500), ("scgraph", 250, 2000), ("resetf", 300, 2500), ("wild", 0, 1500)]})],
+        "stages": [("core", stage_core, {"n_quick": 1500, "n_thorough": 20000}),
+                   ("gw", stage_gw, {"profiles": [("basic", 200, 2000), ("refs", 300, 3000), ("churn", 300, 3000), ("access", 250, 2000), ("scacc", 250, 2000), ("reset", 300, 2000), ("accrefs", 200, 1500), ("legacy", 200, 1500), ("scgraph", 250, 2000), ("resetf", 300, 2500), ("wild", 0, 1500)]})],
         "rule": "as C01; every service event carries a unique tag; per client and resource the delivered events must be a contiguous run "
                 "of the service stream (candidate-position tracking, no false alarm on repeated identical events), nothing missing at quiescence",
         "assumptions": ["no resets/query events in this stage (superseded events are not exercised)"],
@@ -126,7 +128,8 @@ PROPS = {
         "coq": ["Props/C07.v"],
         "level": "proof",
         "harness": ["gwrun", "purediff"],
-        "stages": [("pure", stage_pure, {"suites": ["dispatch"], "n_quick": 4000, "n_thorough": 80000}),
+        "stages": [("core", stage_core, {"n_quick": 1500, "n_thorough": 20000}),
+                   ("pure", stage_pure, {"suites": ["dispatch"], "n_quick": 4000, "n_thorough": 80000}),
                    ("subfsm", stage_pure, {"suites": ["subfsm"], "n_quick": 3000, "n_thorough": 80000, "widen": 1}),
                    ("gw", stage_gw, {"profiles": [("basic", 200, 2000), ("refs", 200, 2500), ("churn", 300, 3000), ("access", 300, 2500), ("scacc", 300, 2500), ("reset", 200, 1500), ("accrefs", 200, 1500), ("http", 250, 2000), ("scthr1", 400, 3000), ("scthr2", 200, 1500), ("wild", 0, 1500)]})],
         "rule": "as C01; response ledger: every response matches exactly one outstanding request id of that connection, nothing outstanding at quiescence; "
@@ -152,7 +155,8 @@ PROPS = {
         "coq": ["Props/C04.v"],
         "level": "proof",
         "harness": ["gwrun", "purediff"],
-        "stages": [("pure", stage_pure, {"suites": ["can_get"], "n_quick": 10, "n_thorough": 10}),
+        "stages": [("core", stage_core, {"n_quick": 1500, "n_thorough": 20000}),
+                   ("pure", stage_pure, {"suites": ["can_get"], "n_quick": 10, "n_thorough": 10}),
                    ("subfsm", stage_pure, {"suites": ["subfsm"], "n_quick": 4000, "n_thorough": 80000, "widen": 1}),
                    ("gw", stage_gw, {"profiles": [("access", 500, 6000), ("scacc", 500, 4000), ("accrefs", 300, 3000), ("http", 400, 3000), ("basic", 100, 1200), ("wild", 0, 1000)]})],
         "rule": "histories with a consistent access policy per (token, resource) that changes only together with a reaccess event, token event or "
@@ -183,7 +187,8 @@ PROPS = {
         "coq": ["Props/C09.v"],
         "level": "proof",
         "harness": ["gwrun"],
-        "stages": [("gw", stage_gw, {"profiles": [("churn", 600, 5000), ("long", 300, 2000), ("scdisc", 400, 3000), ("http", 250, 2000), ("basic", 150, 1000)]})],
+        "stages": [("core", stage_core, {"n_quick": 1500, "n_thorough": 20000}),
+                   ("gw", stage_gw, {"profiles": [("churn", 600, 5000), ("long", 300, 2000), ("scdisc", 400, 3000), ("http", 250, 2000), ("basic", 150, 1000)]})],
         "rule": "histories with disconnects, evictions fired at arbitrary moments, failing gets, delete events, resource ids around the control-line limit; "
                 "ending with every client gone and every eviction timer fired; monitor at each quiescent point (introspection): use count = subscribers, "
                 "unused <-> queued for eviction, entries = event subscriptions, every get under a standing subscription, data served only after a fetch under "
